@@ -116,7 +116,7 @@ def gen_universe(rng, uid, profile):
                "con": [rng.randrange(nvs) for _ in range(rng.choice(profile.get("n_root_con", [0, 0, 1])))],
                "soft": []}
     if profile.get("soft"):
-        k = rng.choice([1, 1, 2, 3])
+        k = rng.choice(profile.get("n_soft", [1, 1, 2, 3]))
         problem["soft"] = [rng.randrange(len(solvables)) for _ in range(k)]
     u = {"id": uid, "packages": pkgs, "solvables": solvables, "version_sets": vsets, "unions": unions,
          "problem": problem}
@@ -127,6 +127,10 @@ def gen_universe(rng, uid, profile):
         for _ in range(rng.randint(1, 3)):
             probs.append({"req": [rand_req() for _ in range(rng.choice([1, 1, 2]))],
                           "con": [rng.randrange(nvs) for _ in range(rng.choice([0, 0, 1]))], "soft": []})
+        # some earlier solves are cancelled after a few provider fetches (C13: "including after ... Cancelled outcomes")
+        for pr in probs[:-1]:
+            if rng.random() < profile.get("p_cancel", 0.3):
+                pr["cancel_after"] = rng.randint(0, 4)
         u["problems"] = probs
     return u
 
@@ -157,6 +161,8 @@ FAMILIES = {
     # from_provider() takes names, version sets and solvables as capture roots - unions are captured from dependencies
     "snapshot": dict(BASE, p_favored=0, p_locked=0, root_single=True, snapshot=True, p_union=0.3, max_unions=3),
     "soft": dict(BASE, soft=True),
+    # several soft requirements competing for few packages, many Unknown / excluded solvables
+    "softx": dict(BASE, soft=True, n_soft=[2, 3, 4], max_pkg=3, p_unknown=0.2, p_excluded=0.3, p_locked=0.05, p_missing_pkg=0.05),
     "reuse": dict(BASE, reuse=True),
 }
 
